@@ -6,6 +6,7 @@ import (
 	"os"
 	"sort"
 	"strings"
+	"sync"
 	"time"
 
 	rt "github.com/uber-go/tally/v4/verifrt"
@@ -37,6 +38,7 @@ type Run struct {
 	Fail string // set by the body for violations it detects itself (clause|detail)
 	// Cleanup functions run after the execution has been judged (also when it was pruned).
 	Cleanup []func()
+	mu      sync.Mutex
 }
 
 func (x *Run) cleanup() {
@@ -47,6 +49,8 @@ func (x *Run) cleanup() {
 }
 
 func (x *Run) failf(clause, f string, a ...interface{}) {
+	x.mu.Lock() // only contended in the free-running race pass
+	defer x.mu.Unlock()
 	if x.Fail == "" {
 		x.Fail = clause + "|" + fmt.Sprintf(f, a...)
 	}
